@@ -312,3 +312,10 @@ Example C08_invert_roundtrip_outside_example :
   map (invert {| ranges := [(2, 0, 3); (5, 2, 1)] ++ [(12, 1, 4)]; inverted := false |})
       (map {| ranges := [(2, 0, 3); (5, 2, 1)] ++ [(12, 1, 4)]; inverted := false |} 9 1) (-1) = 9.
 Proof. split; [simpl; lia|]. split; [simpl; lia|]. vm_compute; reflexivity. Qed.
+
+(* a map moves a position down by at most the total size it deletes and up by at most the total size it inserts *)
+Theorem C08_map_shift_bound : forall rs p a,
+  wf_ranges 0 rs ->
+  p - sum_old rs <= map {| ranges := rs; inverted := false |} p a <= p + sum_new rs.
+Proof. exact map_shift_bound. Qed.
+Print Assumptions C08_map_shift_bound.
